@@ -16,6 +16,12 @@ INNERS = {
     'letname': (('py', 'v'), []),            # binder outside the wrappers, use inside
     'letcount': (('rep', X, 'n', 'n'), []),   # data-dependent count bound outside the wrappers
     'choice-rules': (('choice', ('seq', ('ref', 'R'), ('str', 'y')), ('ref', 'R')), [('R', ('rule', None, X))]),
+    'letcount-min': (('rep', X, 'n', None), []),     # the name is used as lower bound only
+    'letcount-max': (('rep', X, None, 'n'), []),     # ... as upper bound only
+    # the binder is a class member (plain or let) and the use lies inside the wrappers of a later member
+    'member-count': (('rep', X, 'n', 'n'), []),
+    'letmember-count': (('rep', X, 'n', None), []),
+    'letmember-name': (('py', 'n'), []),
     # an inner let that shadows a name bound outside the wrappers (the outer value is read again afterwards)
     'shadowlet': (('let', 'v', X, ('py', 'v')), []),
 }
@@ -51,15 +57,23 @@ def jobs(tier):
                 body = wrap(inner, wname, d)
                 if iname == 'letname':
                     body = ('let', 'v', X, body)
-                elif iname == 'letcount':
+                elif iname in ('letcount', 'letcount-min', 'letcount-max'):
                     body = ('let', 'n', ('apply', ('re', '\\d'), ('py', 'int')), body)
+                elif iname in ('member-count', 'letmember-count', 'letmember-name'):
+                    body = None
                 elif iname == 'shadowlet':
                     body = ('let', 'v', ('re', 'y?'), ('seq', body, ('py', 'v')))
                 for ign in (False, True):
                     for named in ((False, True) if d % 3 == 0 or tier == 'thorough' else (False,)):
-                        rules = [('start', ('rule', None, body))] + extra
+                        if body is None:
+                            omitted = iname != 'member-count'
+                            cls = ('class', None, [('n', omitted, ('apply', ('re', '\\d'), ('py', 'int'))),
+                                                   ('xs', False, wrap(inner, wname, d))])
+                            rules = [('start', ('rule', None, ('ref', 'Km'))), ('Km', cls)] + extra
+                        else:
+                            rules = [('start', ('rule', None, body))] + extra
                         mods = [(tuple(rules), ((('re', ' +'),) if ign else ()), 'start', None, (), False, 'named', None)]
-                        if iname == 'letcount':
+                        if iname.startswith(('letcount', 'member-', 'letmember-')):
                             inputs = ['1x', '2xx', '0', '2x', '1xx', '', 'x']
                         elif iname == 'letname':
                             inputs = ['x', '', 'y', 'xx', 'x ']
@@ -163,8 +177,8 @@ def dispatch(job):
 
 def run(tier, seed):
     chk = Check('C17', tier, seed)
-    chk.rule = ('10 inner expressions (string, regex, rule reference, template call, class, sequence with rule references, use of a let name, '
-                'data-dependent count, choice of rule references, an inner let shadowing an outer name) x 6 wrapper kinds ([e], (e), Opt(e), "\\x00"|e, ""'
+    chk.rule = ('15 inner expressions (string, regex, rule reference, template call, class, sequence with rule references, use of a let name, '
+                'data-dependent count, choice of rule references, an inner let shadowing an outer name, counts used as lower / upper bound only, counts and names bound by plain and let class members) x 6 wrapper kinds ([e], (e), Opt(e), "\\x00"|e, ""'
                 '>>e, mixed) x every nesting depth 1..60 plus 70..120 step 10 (thorough: every depth 1..130) x ignore off/on x unnamed/named, on the '
                 'accepted text and near-misses; the rule-bearing inner kinds additionally in a base grammar extended by a grammar that overrides the rule (and adds an ignore) at 15 depths (thorough 1..69); oracle: reference model of the wrapped expression; plus input-driven rule recursion to '
                 'depth 10^3 and 10^4 (thorough 10^5) through a plain rule, template, class, mixfix row, class list and with ignore under the '
